@@ -5,6 +5,10 @@
 //! streams (same cases in both, selected by the first argument):
 //!   grid    : I = produced queries in order (objects key-sorted)   vs  M = model (GS.run)
 //!   mset    : I = MultiSet::from(&sets).into_iter().collect() on integer sets, in order  vs  M = MS.to_vec
+//!   gridbig : large products (around 1000 .. 65536 queries) judged by count + order-independent digest:
+//!             I = count / sum / xor of a 64-bit hash of every produced query's canonical text;
+//!             S = count computed in Coq as the product of the field lengths (theorem grid_count) and
+//!                 the digest of the expected queries enumerated here, independently of the plugin
 //!   gridset : I = produced queries as a sorted list of texts       vs  S = specification
 //!             (Cartesian product built directly in Coq, sorted)    and M = model, sorted
 use routee_compass::app::compass::compass_app::apply_input_plugins;
@@ -730,10 +734,147 @@ fn mset_main(a: &Args, header: &str) {
     st.finish();
 }
 
+// ---------------------------------------------------------------- stream gridbig: count + digest
+
+fn big_query(lens: &[usize], objects: bool) -> Value {
+    let mut sec = Map::new();
+    for (i, n) in lens.iter().enumerate() {
+        let last_obj = objects && i + 1 == lens.len();
+        let opts: Vec<Value> = (0..*n as i64).map(|j| if last_obj { json!({"o": j, "p": {"q": j}}) } else { json!(j) }).collect();
+        sec.insert(format!("f{}", i), Value::Array(opts));
+    }
+    json!({"origin_vertex": 5, "grid_search": Value::Object(sec), "grid_search_id": "big", "o": "base"})
+}
+fn digest_add(d: &mut (u64, u64, u64), text: &str) {
+    let h = fnv(text);
+    d.0 += 1;
+    d.1 = d.1.wrapping_add(h);
+    d.2 ^= h;
+}
+/// the specification, independent of the plugin: enumerate the product with nested counters and
+/// build each expected query directly (other fields kept, no grid section, scalar under the
+/// field's name, object merged)
+fn big_expected(lens: &[usize], objects: bool) -> (u64, u64, u64) {
+    let mut d = (0u64, 0u64, 0u64);
+    if lens.iter().any(|n| *n == 0) {
+        return d;
+    }
+    let mut idx = vec![0usize; lens.len()];
+    loop {
+        let mut m = Map::new();
+        m.insert("origin_vertex".into(), json!(5));
+        m.insert("grid_search_id".into(), json!("big"));
+        m.insert("o".into(), json!("base"));
+        for (i, j) in idx.iter().enumerate() {
+            if objects && i + 1 == lens.len() {
+                m.insert("o".into(), json!(*j as i64));
+                m.insert("p".into(), json!({"q": *j as i64}));
+            } else {
+                m.insert(format!("f{}", i), json!(*j as i64));
+            }
+        }
+        digest_add(&mut d, &show_json(&Value::Object(m), true));
+        // next index vector, LAST field fastest (any order will do: the digest ignores order)
+        let mut k = lens.len();
+        loop {
+            if k == 0 {
+                return d;
+            }
+            k -= 1;
+            idx[k] += 1;
+            if idx[k] < lens[k] {
+                break;
+            }
+            idx[k] = 0;
+        }
+    }
+}
+fn big_case(st: &mut Stream, plugins: &Plugins, lens: Vec<usize>, objects: bool, family: &str) {
+    let id = st.next_id();
+    let q = big_query(&lens, objects);
+    let imp = match catch(std::panic::AssertUnwindSafe(|| apply_input_plugins(&q, plugins))) {
+        Err(_) => "Panic".to_string(),
+        Ok(Err(e)) => format!("Err {}", err_class(&e)),
+        Ok(Ok(v)) => {
+            let mut d = (0u64, 0u64, 0u64);
+            for x in v.iter() {
+                digest_add(&mut d, &show_json(x, true));
+            }
+            format!("Ok n={} sum={} xor={}", d.0, d.1, d.2)
+        }
+    };
+    let e = big_expected(&lens, objects);
+    let prod: usize = lens.iter().product();
+    st.count(&format!("family:{}", family));
+    st.count(&format!("fields:{}", lens.len()));
+    st.count(&format!("product:{}", match prod { 0..=999 => "<1000", 1000..=4095 => "1000-4095", 4096..=9999 => "4096-9999", 10000 => "10000", 10001..=16383 => "10001-16383", 16384..=65535 => "16384-65535", _ => ">=65536" }));
+    if objects {
+        st.count("object_options");
+    }
+    st.mark_nontrivial(&format!("{:?}{}", lens, objects));
+    let term = format!(
+        "GSR.line_big {} {} {} {}",
+        id,
+        coq_list(&lens, |n| coq_nat(*n)),
+        coq_z(e.1 as i128),
+        coq_z(e.2 as i128)
+    );
+    // the harness-side count must agree with Coq's: checked by the driver through the S line (n=)
+    let _ = e.0;
+    st.case(vec![term], vec![format!("I {} {}", id, imp)], json!({"id": id, "family": family, "lens": lens, "objects": objects}));
+}
+fn big_main(a: &Args, header: &str) {
+    let mut st = Stream::new(&a.out, "gridbig", header, a.shards);
+    let plugins = build_plugins(1);
+    if let Some(p) = &a.replay {
+        st.full = true;
+        let v: Value = serde_json::from_str(&std::fs::read_to_string(p).unwrap()).unwrap();
+        let lens: Vec<usize> = serde_json::from_value(v["case"]["lens"].clone()).unwrap();
+        big_case(&mut st, &plugins, lens, v["case"]["objects"].as_bool().unwrap_or(false), "replay");
+        st.finish();
+        return;
+    }
+    // just below / at / above round thresholds
+    let fixed: Vec<(Vec<usize>, &str)> = vec![
+        (vec![27, 37], "999"), (vec![10, 10, 10], "1000"), (vec![7, 11, 13], "1001"),
+        (vec![31, 33], "1023"), (vec![2; 10], "1024"), (vec![25, 41], "1025"),
+        (vec![63, 65], "4095"), (vec![64, 64], "4096"), (vec![2; 12], "4096"), (vec![17, 241], "4097"),
+        (vec![99, 101], "9999"), (vec![100, 100], "10000"), (vec![10, 10, 10, 10], "10000"), (vec![73, 137], "10001"),
+        (vec![101, 100], "10100"), (vec![127, 129], "16383"), (vec![2; 14], "16384"), (vec![5, 29, 113], "16385"),
+        (vec![255, 257], "65535"), (vec![256, 256], "65536"), (vec![2; 16], "65536"), (vec![65537], "65537"),
+        (vec![1, 1000, 1], "1000"), (vec![3, 1, 3334], "10002"),
+    ];
+    for (i, (lens, _)) in fixed.iter().enumerate() {
+        big_case(&mut st, &plugins, lens.clone(), i % 3 == 2, "thresholds");
+    }
+    let mut rng = Rng::new(a.seed ^ 0x626967);
+    while st.next_id() < a.n.max(fixed.len() + 3) {
+        let mut r = rng.fork();
+        let m = r.range(1, 5) as usize;
+        let target = *r.pick(&[1000usize, 1024, 4096, 10000, 10001, 16384, 20000, 40000, 65536]);
+        // random lengths whose product lands near the target
+        let mut lens: Vec<usize> = vec![1; m];
+        let mut prod = 1usize;
+        for i in 0..m {
+            let rest = (target / prod).max(1);
+            let n = if i + 1 == m { rest + r.below(3) as usize } else { (r.range(1, 40) as usize).min(rest) };
+            lens[i] = n.max(1);
+            prod *= lens[i];
+        }
+        r.shuffle(&mut lens);
+        big_case(&mut st, &plugins, lens, r.chance(1, 3), "random_near_threshold");
+    }
+    st.finish();
+}
+
 fn main() {
     silence_panics();
     let a = parse_args();
     let header = "From Coq Require Import ZArith List String Floats.\nFrom RC Require Import Base.Show Base.Json Model.GridSearch Model.GridSearchRun.\nImport ListNotations.\nOpen Scope Z_scope.";
+    if a.stream == "gridbig" {
+        big_main(&a, header);
+        return;
+    }
     if a.stream == "mset" {
         mset_main(&a, header);
         return;
